@@ -35,9 +35,11 @@ type Contract struct {
 	Ensures     []Clause
 	Honest      []Clause
 	LoopInv     map[int][]Clause
+	LoopUse     map[int][]Clause
 	Modifies    []Clause
 	Asserts     []Clause
 	Uses        []Clause
+	UsesAtRet   []Clause
 	Ghosts      []ghostDecl
 	Cases       []caseSplit
 	Flags       map[string]bool
@@ -56,6 +58,7 @@ func (c *Contract) Key() string {
 type ghostDecl struct {
 	Name     string
 	TypeExpr string
+	Init     ast.Expr // optional: the witness inside the function (default: the local of that name)
 }
 
 type caseSplit struct {
@@ -78,6 +81,7 @@ type Lemma struct {
 	Src    string
 	Props  []string
 	Reveal []string
+	Axiom  bool
 	File   string
 	Line   int
 }
@@ -100,7 +104,7 @@ type ContractSet struct {
 	Lemmas    []*Lemma
 }
 
-var kwRe = regexp.MustCompile(`^(func|def|recdef|opaque|reveal|mapinv|lemma|assert|use|ghost|cases|props|circuit|plain|requires|ensures|honest|loop|modifies|flag|hint|sound_ensures|complete_ensures|sound_requires|complete_requires)\b`)
+var kwRe = regexp.MustCompile(`^(func|def|recdef|opaque|reveal|mapinv|lemma|axiom|assert|use_at_return|use|ghost|cases|props|circuit|plain|requires|ensures|honest|loop|modifies|flag|hint|sound_ensures|complete_ensures|sound_requires|complete_requires)\b`)
 
 func endsOpen(s string) bool {
 	s = strings.TrimSpace(s)
@@ -204,12 +208,12 @@ func ParseContractComments(pkgPath, file string, fset *token.FileSet, f *ast.Fil
 				cs.MapInvs = map[string]*Macro{}
 			}
 			cs.MapInvs[m.Name] = m
-		case strings.HasPrefix(t, "lemma "):
+		case strings.HasPrefix(t, "lemma "), strings.HasPrefix(t, "axiom "):
 			m, err := parseDef(t[6:])
 			if err != nil {
 				return fail(err)
 			}
-			cs.Lemmas = append(cs.Lemmas, &Lemma{Name: m.Name, Params: m.Params, Body: m.Body, Src: m.Src})
+			cs.Lemmas = append(cs.Lemmas, &Lemma{Name: m.Name, Params: m.Params, Body: m.Body, Src: m.Src, Axiom: strings.HasPrefix(t, "axiom ")})
 			cur = nil
 		case strings.HasPrefix(t, "func "):
 			c, err := parseHeader(t)
@@ -369,13 +373,28 @@ func parseClause(c *Contract, t string, no int) error {
 		if len(fs) < 2 {
 			return fmt.Errorf("ghost <name> <type>")
 		}
-		c.Ghosts = append(c.Ghosts, ghostDecl{Name: fs[0], TypeExpr: strings.TrimSpace(rest[len(fs[0]):])})
+		g := ghostDecl{Name: fs[0], TypeExpr: strings.TrimSpace(rest[len(fs[0]):])}
+		if i := strings.Index(g.TypeExpr, " = "); i >= 0 {
+			ie, err := parseExprSrc(strings.TrimSpace(g.TypeExpr[i+3:]))
+			if err != nil {
+				return err
+			}
+			g.Init = ie
+			g.TypeExpr = strings.TrimSpace(g.TypeExpr[:i])
+		}
+		c.Ghosts = append(c.Ghosts, g)
 	case "use":
 		cl, err := mk("")
 		if err != nil {
 			return err
 		}
 		c.Uses = append(c.Uses, cl)
+	case "use_at_return":
+		cl, err := mk("")
+		if err != nil {
+			return err
+		}
+		c.UsesAtRet = append(c.UsesAtRet, cl)
 	case "assert":
 		cl, err := mk("")
 		if err != nil {
@@ -397,6 +416,22 @@ func parseClause(c *Contract, t string, no int) error {
 		c.HintNames = append(c.HintNames, strings.Fields(rest)...)
 	case "loop":
 		fs := strings.Fields(rest)
+		if len(fs) >= 3 && fs[1] == "use" {
+			n, err := strconv.Atoi(fs[0])
+			if err != nil {
+				return err
+			}
+			src := strings.TrimSpace(rest[strings.Index(rest, "use")+3:])
+			e, err := parseExprSrc(src)
+			if err != nil {
+				return err
+			}
+			if c.LoopUse == nil {
+				c.LoopUse = map[int][]Clause{}
+			}
+			c.LoopUse[n] = append(c.LoopUse[n], Clause{Expr: e, Src: src, Line: no})
+			return nil
+		}
 		if len(fs) < 3 || fs[1] != "invariant" {
 			return fmt.Errorf("bad loop clause %q", t)
 		}
